@@ -66,9 +66,9 @@ class WatchedFifo:
     measure: one round = one spin of the event loop plus one delivery call), or at once when an exception escaped an
     MPyC coroutine (the current case can then never complete)."""
 
-    def __init__(self, errs, limit=None):
+    def __init__(self, errs, limit=None, inner=None):
         from lib.sim import Fifo
-        self.fifo = Fifo()
+        self.fifo = inner or Fifo()      # the delivery schedule proper (FIFO unless another policy is given)
         self.errs = errs
         self.limit = limit or ROUNDS_PER_CASE
         self.n = 0
@@ -89,7 +89,7 @@ class WatchedFifo:
         return self.fifo.deliver(net)
 
 
-def run_batch(ctx, m, t, no_prss, cases, case_coro, seed, want_log=False, arity3=ARITY):
+def run_batch(ctx, m, t, no_prss, cases, case_coro, seed, want_log=False, arity3=ARITY, policy=None):
     """One pass: cases run in order in one simulator; at the first case that does not complete (hang / escaped
     exception) that simulator is discarded and the rest continues in a fresh one."""
     from lib.sim import Sim
@@ -108,7 +108,7 @@ def run_batch(ctx, m, t, no_prss, cases, case_coro, seed, want_log=False, arity3
                 raise RuntimeError('simulator start failed')
             prog_res = [[None] * len(cases) for _ in range(m)]
             start = i
-            pol = WatchedFifo(errs)
+            pol = WatchedFifo(errs, inner=policy() if policy else None)
 
             async def prog(mpc, mods, pid, start=start, prog_res=prog_res, pol=pol):
                 state = {}
@@ -154,7 +154,7 @@ def run_batch(ctx, m, t, no_prss, cases, case_coro, seed, want_log=False, arity3
     return results, logs, incomplete
 
 
-def run_cases(ctx, m, t, no_prss, cases, case_coro, seed, want_log=False, isolated=()):
+def run_cases(ctx, m, t, no_prss, cases, case_coro, seed, want_log=False, isolated=(), policy=None):
     """cases: list of JSON-able case descriptions.  Returns per-case results: value | ('EXC', name) | ('HANG', how) |
     ('DIVERGE', per-party values).  Cases whose index is in `isolated` (predicted not to terminate) run alone in their own
     simulator.  Every case that did not complete (HANG / escaped EXC) in a shared simulator is re-run once alone in a
@@ -162,12 +162,12 @@ def run_cases(ctx, m, t, no_prss, cases, case_coro, seed, want_log=False, isolat
     isolated = set(isolated)
     shared = [j for j in range(len(cases)) if j not in isolated]
     results = [None] * len(cases)
-    res, logs, inc = run_batch(ctx, m, t, no_prss, [cases[j] for j in shared], case_coro, seed, want_log)
+    res, logs, inc = run_batch(ctx, m, t, no_prss, [cases[j] for j in shared], case_coro, seed, want_log, policy=policy)
     for j, r in zip(shared, res):
         results[j] = r
     redo = [] if want_log else [shared[q] for q in inc] + [j for j in shared if isinstance(results[j], tuple) and results[j][:1] == ('DIVERGE',)]
     for j in sorted(isolated) + redo:
-        results[j] = run_batch(ctx, m, t, no_prss, [cases[j]], case_coro, seed)[0][0]
+        results[j] = run_batch(ctx, m, t, no_prss, [cases[j]], case_coro, seed, policy=policy)[0][0]
     if redo:
         ctx.extra['cases_rerun_in_isolation'] = ctx.extra.get('cases_rerun_in_isolation', 0) + len(redo)
     ctx.extra['max_rounds_per_case'] = ROUND_STATS['max_rounds_per_case']
@@ -804,6 +804,7 @@ def run(ctx):
     malformed_stream(ctx)
     sync_mode_getitem(ctx)
     traffic_independence(ctx)
+    concurrency_stream(ctx, G)
     model_compare(ctx, ok, model_cases, powmod_cases)
     if ctx.broken and not ctx.violations:
         ctx.unproved('C38 model/proof', {'broken': ctx.broken[:5]})
@@ -880,6 +881,136 @@ def sync_mode_getitem(ctx):
         sys.argv = argv
         for k in [k for k in sys.modules if k == 'mpyc' or k.startswith('mpyc.')]:
             del sys.modules[k]
+
+
+def concurrency_stream(ctx, G):
+    """Several secure polynomial operations in flight at once (launched without awaiting in between, operands of
+    different padded lengths), followed by a run of short awaited multiplications while they are still running, m=3, t=1,
+    under non-FIFO delivery schedules: the parties must keep the messages of the
+    concurrently running sub-protocols (np_roll/_reshare inside _div, _gcd, _gcdext) apart.  Compared with gfpx."""
+    import random
+    from lib.sim import RandomOrder, ReverseLinks, Hold
+    rng = ctx.rng
+    OPS = ('divmod', 'floordiv', 'mod', 'gcd', 'gcdext', 'mul')
+    trials = []
+    for trial in range(ctx.n(12, 80)):
+        p = rng.choice([11, 101, 101])
+        k = rng.randint(3, 6)
+        lens = rng.sample(range(1, 7), k) if k <= 6 else [rng.randint(1, 6) for _ in range(k)]
+        ops = []
+        for j in range(k):
+            op = rng.choice(OPS)
+            lb = lens[j]
+            b = [rng.randrange(p) for _ in range(lb)]
+            if not strip(b):
+                b[0] = 1
+            if rng.random() < 0.4:
+                b = b + [0] * rng.randint(1, 2)          # padded divisor
+            a = [rng.randrange(p) for _ in range(rng.randint(1, 7))]
+            if rng.random() < 0.3 and len(a) > 1:
+                a[-1] = 0
+            if op in ('gcd', 'gcdext') and not strip(a):
+                a[0] = 1
+            ops.append((op, a, b))
+        trials.append((p, ops))
+    pol_names = ['RandomOrder', 'ReverseLinks', 'RandomOrder', 'Hold']
+
+    async def coro(mpc, mods, pid, state, case):
+        (p, ops) = case
+        np = mods['mpyc.numpy'].np
+        secpoly = mods['mpyc.secpols'].secpoly
+        secfld = mpc.SecFld(p)
+        fs = [(secpoly(mpc.input(secfld.array(np.array(a, dtype=object)), senders=j % 3)),
+               secpoly(mpc.input(secfld.array(np.array(b, dtype=object)), senders=(j + 1) % 3))) for j, (op, a, b) in enumerate(ops)]
+        launched = []
+        for (op, a, b), (fa, fb) in zip(ops, fs):       # launch everything, await nothing
+            if op == 'divmod':
+                r = list(divmod(fa, fb))
+            elif op == 'floordiv':
+                r = [fa // fb]
+            elif op == 'mod':
+                r = [fa % fb]
+            elif op == 'gcd':
+                r = [secpoly.gcd(fa, fb)]
+            elif op == 'gcdext':
+                r = list(secpoly.gcdext(fa, fb))
+            else:
+                r = [fa * fb]
+            launched.append([mpc.output(x.share) for x in r])
+        # while these are in flight the main program keeps issuing short awaited operations: every one takes a fresh
+        # program counter, racing with the sub-protocols (np_roll -> _reshare) of the polynomial operations
+        chatter = []
+        for q in range(30):
+            chatter.append(int(await mpc.output(mpc.input(secfld(q % p), senders=q % 3) * mpc.input(secfld((q + 1) % p), senders=(q + 1) % 3))))
+        if chatter != [q * (q + 1) % p for q in range(30)]:
+            return ('CHATTER', chatter)
+        out = []
+        for futs in launched:
+            res = []
+            for f in futs:
+                arr = await f
+                res.append(strip([int(x) for x in arr.value.tolist()]))
+            out.append(res)
+        return out
+
+    def want(p, ops):
+        poly = G.GFpX(p)
+        L = lambda x: [int(c) for c in x]
+        out = []
+        for (op, a, b) in ops:
+            pa, pb = poly(strip(a)), poly(strip(b))
+            if op == 'divmod':
+                q, r = divmod(pa, pb)
+                out.append([L(q), L(r)])
+            elif op == 'floordiv':
+                out.append([L(pa // pb)])
+            elif op == 'mod':
+                out.append([L(pa % pb)])
+            elif op == 'gcd':
+                out.append([L(poly.gcd(pa, pb))])
+            elif op == 'gcdext':
+                out.append([L(x) for x in poly.gcdext(pa, pb)])
+            else:
+                out.append([L(pa * pb)])
+        return out
+    nrun = 0
+    for pi, pname in enumerate(pol_names):
+        mine = [tr for j, tr in enumerate(trials) if j % len(pol_names) == pi]
+        seeds = iter(range(10**6))
+
+        def mk(pname=pname, base=ctx.seed * 977 + pi):
+            if pname == 'RandomOrder':
+                return RandomOrder(random.Random(base + next(seeds)))
+            if pname == 'ReverseLinks':
+                return ReverseLinks()
+            return Hold({(0, 1), (2, 0), (1, 2)}, 40)
+        res = run_cases(ctx, 3, 1, False, mine, coro, seed=ctx.seed + 31 + pi, policy=mk)
+        for (p, ops), got in zip(mine, res):
+            nrun += 1
+            w = want(p, ops)
+            key = {'concurrent': [(o, a, b) for (o, a, b) in ops], 'p': p, 'policy': pname}
+            ctx.case(dict(key, trial=nrun), nontrivial=True, kind='concurrent ops m=3 %s' % pname)
+            if got == w:
+                continue
+            # gcdext: accept the known non-reduced cofactors (F-C38-7) when the gcd agrees and Bezout holds
+            bad = []
+            if isinstance(got, list) and len(got) == len(w):
+                for (op, a, b), g, x in zip(ops, got, w):
+                    if g == x:
+                        continue
+                    if op == 'gcdext' and len(g) == 3 and g[0] == x[0]:
+                        lhs = strip([(u + v) % p for u, v in itertools.zip_longest(polymul(p, g[1], strip(a)), polymul(p, g[2], strip(b)), fillvalue=0)])
+                        if lhs == g[0]:
+                            ctx.violation('secpoly-gcdext wrong cofactors-differ bezout=True GF(%d) lens=(%d,%d)' % (p, len(a), len(b)),
+                                          {'p': p, 'a': a, 'b': b, 'got': g, 'want_gfpx': x, 'cfg': 'm=3 concurrent'})
+                            continue
+                    bad.append((op, a, b, g, x))
+            else:
+                bad.append(('all', None, None, got, None))
+            if bad:
+                ctx.violation('secpoly-concurrent %s m=3 policy=%s' % ('+'.join(sorted({b_[0] for b_ in bad})), pname),
+                              dict(key, got=str(got)[:600], want=str(w)[:600], failing=str(bad)[:600]))
+    ctx.extra['concurrent_trials'] = nrun
 
 
 def traffic_independence(ctx):
